@@ -87,7 +87,11 @@ func (v *SliceSchema) validate(ctx *p.SchemaCtx) {
 
 	if isZeroVal || refVal.Len() == 0 {
 		if v.defaultVal != nil {
-			refVal.Set(reflect.ValueOf(v.defaultVal))
+			// copy the default: the destination must not share the schema's backing array
+			def := reflect.ValueOf(v.defaultVal)
+			cp := reflect.MakeSlice(def.Type(), def.Len(), def.Len())
+			reflect.Copy(cp, def)
+			refVal.Set(cp)
 		} else if v.required == nil {
 			return
 		} else {
